@@ -46,6 +46,7 @@ def run(ctx):
     cursors(ctx, facts)
     ring(ctx, facts)
     ring_ops(ctx, facts)
+    waker_store(ctx, facts)
     ctx.assume("std::task::Waker, std::sync::Mutex and AtomicUsize behave as documented")
 
 
@@ -622,3 +623,69 @@ def ring_ops(ctx, facts):
         okix = len(ix) == 1 and flow.expr_of(wb, ix[0][1]["args"][1], max_depth=8) == ("arg", 1, "range")
         okw = ra[1:] == [("arg", 1, "write"), ("arg", 1, "write_size")] and ia[1:] == [("arg", 1, "buf", "write"), ("arg", 1, "buf", "write_size")] and okix
     ctx.ob("RING-ops", "write:fills-what-it-advances", okw, "writes range(write, write_size), then write = inc(write, write_size)" if okw else "the cells written and the advance of the write cursor disagree", site_of(wb, ic[0][0]) if ic else site_of(wb))
+
+
+# ---------------------------------------------------------------------------------------------
+def waker_store(ctx, facts):
+    """WaitingShard keeps its wakers sorted by index; wake() relies on that (take_while(wi.i <= i)).  A waker that is
+    filed out of order or under another shard than the one wake(i) looks in is never woken."""
+    ctx.rule("SORTED-wakers: Waiting::add and Waiting::wake pick the shard with the same function of their own index i; WaitingShard::add scans the deque from the back comparing wakers[j].i with i and either replaces at j (Equal), inserts at j + 1 (Less) or, when every entry is greater, inserts at the front; nothing else writes the deque in add")
+    P = "helpers::buffers::ordering_sender::"
+    wa, ww, sh, sa = (facts.bodies.get(P + n) for n in ("Waiting::add", "Waiting::wake", "Waiting::shard", "WaitingShard::add"))
+    if None in (wa, ww, sh, sa):
+        return ctx.missing("SORTED-wakers", "Waiting::add / wake / shard, WaitingShard::add")
+    ctx.count(bodies=4)
+    def shard_arg(b, callee, iarg):
+        c = flow.find_calls(b, re.compile(r"Waiting::shard$"))
+        d = flow.find_calls(b, re.compile(callee))
+        return len(c) == 1 and len(d) == 1 and flow.expr_of(b, c[0][1]["args"][1]) == ("arg", iarg) and ("arg", iarg) in [flow.expr_of(b, a) for a in d[0][1]["args"]] and "Waiting::shard" in str(flow.expr_of(b, d[0][1]["args"][0], max_depth=6))
+    ok1 = shard_arg(wa, r"WaitingShard::add$", 3) and shard_arg(ww, r"WaitingShard::wake$", 2)
+    ctx.ob("SORTED-wakers", "same-shard-for-add-and-wake", ok1, "add(current, i, w) and wake(i) both go to shard(i)" if ok1 else "a waker for index i is stored in a shard that wake(i) does not look in (or the other way round): the writer is never woken", site_of(wa))
+    # the shard index is a function of i only
+    e = None
+    for bb, idx, s in sh.iter_assigns():
+        r = s["r"]
+        if r["k"] == "bin" and r["op"] == "Rem":
+            e = flow.expr_of(sh, r["a"], max_depth=6)
+    ok2 = e is not None and ("arg", 2) in malsec_leaves(e) and not [x for x in malsec_leaves(e) if x[:2] == ("arg", 1)]
+    ctx.ob("SORTED-wakers", "shard-depends-on-index-only", ok2, "shard index = f(i) % SHARDS" if ok2 else "the shard index is not a pure function of the send index", site_of(sh))
+    ins = flow.find_calls(sa, re.compile(r"VecDeque::<T, A>::insert$"))
+    cmpc = flow.find_calls(sa, re.compile(r"Ord::cmp$"))
+    writers = [F.callee(t)[0].split("::")[-1] for bb, t in sa.calls() if re.search(r"VecDeque::<T, A>::(push_back|push_front|insert|remove|pop_front|pop_back|clear|truncate|drain|swap|retain)$", F.callee(t)[0] or "")]
+    ok3, why3 = False, "insertion shape not recognised"
+    if len(cmpc) == 1 and len(ins) == 2 and writers == ["insert", "insert"]:
+        c0, c1 = (flow.expr_of(sa, a, max_depth=8) for a in cmpc[0][1]["args"])
+        cmp_ok = "wakers" in str(c0) and c0[-1] == "i" and c1 == ("arg", 3)
+        from rules.C17 import variant_arms
+        dom = sa.dominators()
+        sw = flow.next_switch(sa, cmpc[0][1]["t"])
+        arms = {}
+        if sw is not None:
+            t = sa.term(sw)
+            names = {"-1": "Less", "255": "Less", "0": "Equal", "1": "Greater"}
+            for v, tgt in t["ts"]:
+                arms[names.get(str(v), str(v))] = tgt
+            if t.get("else") is not None:
+                rest = [n for n in ("Less", "Equal", "Greater") if n not in arms]
+                if len(rest) == 1:
+                    arms[rest[0]] = t["else"]
+        pos = {}
+        for bb, t in ins:
+            idx = flow.expr_of(sa, t["args"][1], max_depth=8)
+            where = [n for n, tgt in arms.items() if flow.dominates(dom, tgt, bb)]
+            pos[bb] = (idx, where)
+        less = [v for v in pos.values() if v[1] == ["Less"]]
+        front = [v for v in pos.values() if not v[1]]
+        less_ok = len(less) == 1 and less[0][0][0] == "bin" and less[0][0][1] == "Add" and ("const", 1) in less[0][0][2:] and "Iterator::next" in str(less[0][0])
+        front_ok = len(front) == 1 and front[0][0] == ("const", 0)
+        eq_ok = "Equal" in arms and any(flow.dominates(dom, arms["Equal"], bb) for bb, t in flow.find_calls(sa, re.compile(r"IndexMut::index_mut$")))
+        ok3 = cmp_ok and less_ok and front_ok and eq_ok
+        why3 = "Equal: replace at j; Less: insert(j + 1); all greater: insert(0)" if ok3 else ("the comparison is not wakers[j].i against i" if not cmp_ok else ("an entry smaller than i is not followed by the new waker at j + 1" if not less_ok else ("when every stored index is greater the new waker is not inserted at the front: the deque is no longer sorted and wake() stops searching before it finds the waker" if not front_ok else "an equal index is not replaced in place")))
+    elif writers != ["insert", "insert"]:
+        why3 = f"WaitingShard::add modifies the deque with {writers}: expected exactly the two sorted inserts"
+    ctx.ob("SORTED-wakers", "sorted-insert", ok3, why3, site_of(sa, ins[0][0]) if ins else site_of(sa))
+
+
+def malsec_leaves(e):
+    from rules import malsec
+    return malsec._leaves(e, "arg")
